@@ -1,7 +1,8 @@
 (* Sync.v — the wait/notify protocol of writers, merger and Close, over an
    arbitrary number of writers: back-pressure on stackDirtyTop
-   (MaxPreMergerBatches), blocked writers, wake-ups, Close.  Writers are
-   anonymous: only counts matter.  Executable definitions only. *)
+   (MaxPreMergerBatches), blocked writers, wake-ups, synchronous merger
+   notifications, Close.  Writers are anonymous: only counts matter.
+   Executable definitions only. *)
 From Coq Require Export List Arith Bool.
 Export ListNotations.
 
@@ -13,59 +14,70 @@ Record sy := {
   y_closed_ret : nat;   (* ExecuteBatch calls that returned ErrClosed *)
   y_arrived : nat;      (* ExecuteBatch calls made (non-empty batches) *)
   y_closed : bool;
-  y_syncwait : nat;     (* synchronous NotifyMerger calls waiting for their pong *)
-  y_syncret : nat       (* ... that returned *)
+  y_syncwait : nat;     (* synchronous NotifyMerger calls whose ping the merger has collected *)
+  y_syncret : nat;      (* ... that returned *)
+  y_queued : nat;       (* synchronous pings still in the channel (the merger is mid-cycle) *)
+  y_asleep : bool       (* the merger is waiting for work *)
 }.
 
 Definition sy_init (cap : nat) : sy :=
   {| y_cap := cap; y_top := 0; y_wait := 0; y_ok := 0; y_closed_ret := 0; y_arrived := 0;
-     y_closed := false; y_syncwait := 0; y_syncret := 0 |}.
+     y_closed := false; y_syncwait := 0; y_syncret := 0; y_queued := 0; y_asleep := true |}.
 
 Inductive sl :=
 | SArrive          (* a writer calls ExecuteBatch with a non-empty batch *)
 | SIngest          (* the merger moves top into mid and broadcasts *)
-| SLoopTop         (* the merger reaches the top of its loop: pending pongs are sent *)
+| SCycleEnd        (* the merger finishes its cycle: pongs for the pings it had collected
+                      are sent, then it collects the queued pings and waits or goes on *)
 | SNotifySync      (* a synchronous NotifyMerger is issued *)
 | SClose.          (* Close: stop channel closed, broadcast, goroutines joined *)
+
+Definition upd (s : sy) top wait ok cret arr closed sw sr q asl : sy :=
+  {| y_cap := y_cap s; y_top := top; y_wait := wait; y_ok := ok; y_closed_ret := cret;
+     y_arrived := arr; y_closed := closed; y_syncwait := sw; y_syncret := sr; y_queued := q;
+     y_asleep := asl |}.
 
 Definition sy_step (s : sy) (l : sl) : sy :=
   match l with
   | SArrive =>
       if y_closed s then
-        {| y_cap := y_cap s; y_top := y_top s; y_wait := y_wait s; y_ok := y_ok s;
-           y_closed_ret := S (y_closed_ret s); y_arrived := S (y_arrived s); y_closed := true;
-           y_syncwait := y_syncwait s; y_syncret := y_syncret s |}
+        upd s (y_top s) (y_wait s) (y_ok s) (S (y_closed_ret s)) (S (y_arrived s)) true
+            (y_syncwait s) (y_syncret s) (y_queued s) (y_asleep s)
       else if Nat.ltb (y_top s) (y_cap s) then
-        {| y_cap := y_cap s; y_top := S (y_top s); y_wait := y_wait s; y_ok := S (y_ok s);
-           y_closed_ret := y_closed_ret s; y_arrived := S (y_arrived s); y_closed := false;
-           y_syncwait := y_syncwait s; y_syncret := y_syncret s |}
+        (* accepted: a sleeping merger is woken *)
+        upd s (S (y_top s)) (y_wait s) (S (y_ok s)) (y_closed_ret s) (S (y_arrived s)) false
+            (y_syncwait s) (y_syncret s) (y_queued s) false
       else
-        {| y_cap := y_cap s; y_top := y_top s; y_wait := S (y_wait s); y_ok := y_ok s;
-           y_closed_ret := y_closed_ret s; y_arrived := S (y_arrived s); y_closed := false;
-           y_syncwait := y_syncwait s; y_syncret := y_syncret s |}
+        upd s (y_top s) (S (y_wait s)) (y_ok s) (y_closed_ret s) (S (y_arrived s)) false
+            (y_syncwait s) (y_syncret s) (y_queued s) (y_asleep s)
   | SIngest =>
-      if y_closed s then s else
+      if y_closed s || y_asleep s then s else
       (* top is emptied; every blocked writer wakes; the first `cap` of them get in *)
       let k := Nat.min (y_wait s) (y_cap s) in
-      {| y_cap := y_cap s; y_top := k; y_wait := y_wait s - k; y_ok := y_ok s + k;
-         y_closed_ret := y_closed_ret s; y_arrived := y_arrived s; y_closed := false;
-         y_syncwait := y_syncwait s; y_syncret := y_syncret s |}
-  | SLoopTop =>
-      {| y_cap := y_cap s; y_top := y_top s; y_wait := y_wait s; y_ok := y_ok s;
-         y_closed_ret := y_closed_ret s; y_arrived := y_arrived s; y_closed := y_closed s;
-         y_syncwait := 0; y_syncret := y_syncret s + y_syncwait s |}
+      upd s k (y_wait s - k) (y_ok s + k) (y_closed_ret s) (y_arrived s) false
+          (y_syncwait s) (y_syncret s) (y_queued s) false
+  | SCycleEnd =>
+      if y_closed s || y_asleep s then s else
+      (* replyToPings(collected); mergerWaitForWork collects what is queued; it sleeps only
+         when there is neither a pending batch nor a ping *)
+      upd s (y_top s) (y_wait s) (y_ok s) (y_closed_ret s) (y_arrived s) false
+          (y_queued s) (y_syncret s + y_syncwait s) 0
+          (Nat.eqb (y_top s) 0 && Nat.eqb (y_queued s) 0)
   | SNotifySync =>
       (* not issued on a closed collection (it would wait for a merger that is gone) *)
       if y_closed s then s else
-      {| y_cap := y_cap s; y_top := y_top s; y_wait := y_wait s; y_ok := y_ok s;
-         y_closed_ret := y_closed_ret s; y_arrived := y_arrived s; y_closed := y_closed s;
-         y_syncwait := S (y_syncwait s); y_syncret := y_syncret s |}
+      if y_asleep s then
+        (* the ping wakes the merger, which collects it at once *)
+        upd s (y_top s) (y_wait s) (y_ok s) (y_closed_ret s) (y_arrived s) false
+            (S (y_syncwait s)) (y_syncret s) (y_queued s) false
+      else
+        upd s (y_top s) (y_wait s) (y_ok s) (y_closed_ret s) (y_arrived s) false
+            (y_syncwait s) (y_syncret s) (S (y_queued s)) false
   | SClose =>
-      (* blocked writers are released with ErrClosed; the merger's deferred
-         replyToPings answers every pending pong *)
-      {| y_cap := y_cap s; y_top := y_top s; y_wait := 0; y_ok := y_ok s;
-         y_closed_ret := y_closed_ret s + y_wait s; y_arrived := y_arrived s; y_closed := true;
-         y_syncwait := 0; y_syncret := y_syncret s + y_syncwait s |}
+      (* blocked writers are released with ErrClosed; the exiting merger answers the pongs
+         it had collected and the pings still queued *)
+      upd s (y_top s) 0 (y_ok s) (y_closed_ret s + y_wait s) (y_arrived s) true
+          0 (y_syncret s + y_syncwait s + y_queued s) 0 (y_asleep s)
   end.
 
 Definition sy_run (s : sy) (ls : list sl) : sy := fold_left sy_step ls s.
